@@ -4,12 +4,13 @@
    arithmetic is exact and is compared digit for digit (a division that is not exact is a machinery failure of the model's precision bound, see Div8).
      measure(x): error = setpoint - x; correction = error * gain - (error - last_error) * damping; below min_correction -> 0, above max_correction -> clamped;
                  last_error, count, total |correction| updated.
-   What TLC establishes: from rest and without disturbance the error never grows and never changes sign for gain 1/2, damping 1/8 (Settles); the clamp and the
-   dead band are respected; but ErrorNeverGrows is REFUTED: after a jump (disturbance or new setpoint) the damping term uses the difference to the STALE last
+   What TLC establishes: from rest and without disturbance the error never grows for gain 1/2, damping 1/8 (Settles), but it does change sign - the sixth step
+   overshoots by a thousandth of the initial error (NoOvershootFromRest REFUTED; the first formulation of Settles included it and held only because the model then
+   stopped after four steps); the clamp and the dead band are respected; and ErrorNeverGrows is REFUTED: after a jump (disturbance or new setpoint) the damping term uses the difference to the STALE last
    error and can push the plant AWAY from the setpoint (error 1, last error -10, damping 1/8: the correction is 0.5 - 1.375 < 0). *)
 EXTENDS Integers, TLC
 CONSTANTS G8, D8, MinC, MaxC, MaxSteps        \* MaxC = 0: unbounded
-Unit == 4096           \* 2^12 units = 1/16; four steps divide by 8 each, so inputs are multiples of 2^12
+Unit == 262144         \* 2^18 units = 4.0; six steps divide by 8 each, so inputs are multiples of 2^18 (and every product stays below 2^31)
 Starts == {k * 2 * Unit : k \in -4..4}
 Jumps == {k * Unit : k \in {-40, -3, 3, 40}}
 VARIABLES sp, plant, cur, last, count, total, steps, jumped, obs
@@ -30,8 +31,8 @@ Spec == HInit /\ [][HNext]_vars
 (* ------------------------------ properties ------------------------------ *)
 ClampRespected == [][obs'.op = "step" => (MaxC > 0 => Abs(obs'.corr) <= MaxC) /\ (obs'.corr = 0 \/ Abs(obs'.corr) >= MinC)]_vars
 TotalGrows == [][obs'.op = "step" => total' = total + Abs(obs'.corr) /\ count' = count + 1]_vars
-Settles == [][(obs'.op = "step" /\ jumped = 0) => /\ Abs(sp - plant') <= Abs(sp - plant)
-                                               /\ ((sp - plant) >= 0 => (sp - plant') >= 0) /\ ((sp - plant) <= 0 => (sp - plant') <= 0)]_vars
-(* probe, expected to be VIOLATED *)
+Settles == [][(obs'.op = "step" /\ jumped = 0) => Abs(sp - plant') <= Abs(sp - plant)]_vars
+(* probes, expected to be VIOLATED *)
+NoOvershootFromRest == [][(obs'.op = "step" /\ jumped = 0) => ((sp - plant) >= 0 => (sp - plant') >= 0) /\ ((sp - plant) <= 0 => (sp - plant') <= 0)]_vars
 ErrorNeverGrows == [][obs'.op = "step" => Abs(sp - plant') <= Abs(sp - plant)]_vars
 ================================================================================
